@@ -246,15 +246,21 @@ where
             _ => {
                 let mut updated = false;
                 let mut offset = 0;
+                //new items are appended after the part that was there (and is sorted) when we started
+                let original_len = self.array.len();
                 for item in other.iter() {
                     if self.sorted && other.sorted {
-                        //optimisation if both are sorted
-                        match self.array[offset..].binary_search(&item) {
-                            Ok(index) => offset = index + 1,
+                        //optimisation if both are sorted: search the original part, from where the previous item was found
+                        match self.array[offset..original_len].binary_search(&item) {
+                            Ok(index) => offset += index + 1,
                             Err(index) => {
-                                offset = index + 1;
-                                updated = true;
-                                self.add_unchecked(item);
+                                offset += index;
+                                if self.array.len() == original_len
+                                    || self.array[self.array.len() - 1] != item
+                                {
+                                    updated = true;
+                                    self.add_unchecked(item);
+                                }
                             }
                         }
                     } else {
